@@ -518,6 +518,40 @@ pub fn run(g: &mut Global) {
         },
         &check_many,
     );
+    // bit patterns an implementation might single out as a marker ("unset", "missing"): every one of them is an
+    // ordinary argument of a setter. One or two fields take such a pattern, the others a consistent value; all 120
+    // setter orders for the single-field cases. (An arbitrary payload is out of reach here: thorough tier, libFuzzer.)
+    const PATTERNS: [u64; 16] = [
+        u64::MAX, 0x7FFF_FFFF_FFFF_FFFF, 0x7FF0_0000_0000_0001, 0xFFF0_0000_0000_0001, 0x7FF8_0000_0000_0001, 0xFFF8_0000_0000_0001,
+        0x7FF4_0000_0000_0000, 0x7FEF_FFFF_FFFF_FFFF, 0xFFEF_FFFF_FFFF_FFFF, 0x0010_0000_0000_0000, 0x000F_FFFF_FFFF_FFFF, 0x0000_0000_0000_0001,
+        0x8000_0000_0000_0001, 0x7FF8_DEAD_BEEF_0000, 0x7FF8_0000_FFFF_FFFF, 0xFFFF_FFFF_0000_0000,
+    ];
+    g.exhaustive(
+        "marker_bit_patterns",
+        16 * 5 * 120 + 16 * 16 * 10,
+        &|i| {
+            let base = [1.5f64, 3.0, 1.0, 2.0, 7.0]; // open, high, low, close, volume: consistent
+            if i < 16 * 5 * 120 {
+                let p = perm((i % 120) as usize);
+                let r = i / 120;
+                let field = (r % 5) as usize;
+                let pat = f64::from_bits(PATTERNS[(r / 5) as usize]);
+                let mut t = base;
+                t[field] = pat;
+                Case { calls: p.iter().map(|&j| (j, X(t[j as usize]))).collect() }
+            } else {
+                let j = i - 16 * 5 * 120;
+                const PAIRS: [(usize, usize); 10] = [(0, 1), (0, 2), (0, 3), (0, 4), (1, 2), (1, 3), (1, 4), (2, 3), (2, 4), (3, 4)];
+                let (a, b) = PAIRS[(j % 10) as usize];
+                let r = j / 10;
+                let mut t = base;
+                t[a] = f64::from_bits(PATTERNS[(r % 16) as usize]);
+                t[b] = f64::from_bits(PATTERNS[(r / 16) as usize]);
+                Case { calls: (0..5u8).map(|q| (q, X(t[q as usize]))).collect() }
+            }
+        },
+        &check,
+    );
     // long chains of setter calls (up to 600 per build): "last value wins" must not depend on how many
     // calls were made; one field is left out in a third of the chains
     g.random(
